@@ -209,3 +209,56 @@ def twin_autograd_mtl(run: MtlRun) -> list[str]:
         if a != b:
             out.append(f"leaf {l}: torchjd {a} vs torch.autograd {b}")
     return out
+
+
+def precision_run_mtl(scn: dict, rng: random.Random) -> list[str]:
+    """float64 precision run for mtl_backward (see autojac_replay.precision_run_backward)."""
+    from torchjd import mtl_backward
+    from torchjd.aggregation import Constant
+    eps = 2.0 ** -29
+    B = Built(scn["prog"], dtype=torch.float64, rng=rng, scalars=scn["losses"], perturb=eps)
+    T = Built(scn["prog"], dtype=torch.float64, shapes=B.shapes, real=B.real, perturb=eps)
+    feats = [int(f) for f in scn["feats"]]
+    losses = [int(l) for l in scn["losses"]]
+    tparams = [[int(p) for p in tp] for tp in scn["tparams"]]
+    shared = [int(x) for x in scn["shared"]]
+    w = torch.tensor([float(v) + 2.0 ** -28 * (1 + i % 2) for i, v in enumerate(scn["w"])], dtype=torch.float64)
+    k = scn["k"]
+    try:
+        mtl_backward([B.node(l) for l in losses], [B.node(f) for f in feats], Constant(w),
+                     tasks_params=[[B.node(p) for p in tp] for tp in tparams], shared_params=[B.node(s) for s in shared],
+                     retain_graph=True, parallel_chunk_size=None if k == 0 else k)
+    except Exception as e:                                  # noqa: BLE001
+        return [f"raised {type(e).__name__}: {str(e)[:120]}"]
+    tf = [T.node(f) for f in feats]
+    cts = [torch.zeros_like(f) for f in tf]
+    upd: dict = {}
+
+    def add(l, g):
+        g = torch.zeros_like(T.node(l)) if g is None else g.detach().clone()
+        upd[l] = g if l not in upd else upd[l] + g
+
+    for i, li in enumerate(losses):
+        gs = torch.autograd.grad(T.node(li), tf, retain_graph=True, allow_unused=True)
+        for j, g in enumerate(gs):
+            if g is not None:
+                cts[j] = cts[j] + w[i] * g
+        if tparams[i]:
+            gp = torch.autograd.grad(T.node(li), [T.node(p) for p in tparams[i]], retain_graph=True, allow_unused=True)
+            for p, g in zip(tparams[i], gp):
+                add(p, g)
+    if shared:
+        gsh = torch.autograd.grad(tf, [T.node(s) for s in shared], grad_outputs=cts, retain_graph=True, allow_unused=True)
+        for s_, g in zip(shared, gsh):
+            add(s_, g)
+    out = []
+    for l, b in upd.items():
+        a = B.node(l).grad
+        if a is None or a.dtype != torch.float64:
+            out.append(f"leaf {l}: .grad {None if a is None else a.dtype}")
+            continue
+        scale = max(1.0, float(b.abs().max()))
+        err = float((a - b).abs().max())
+        if err > 1e-12 * scale:
+            out.append(f"leaf {l}: differs from torch.autograd by {err:.3e} (float64, scale {scale:.3g})")
+    return out
